@@ -7,7 +7,7 @@
    GV.Flags.Generated (registry of Go functions + declared flags, call graph,
    sinks); GV.Flags.Check holds the vm_compute proofs over it.
    Axioms: none. *)
-From Coq Require Import ZArith NArith List String.
+From Coq Require Import ZArith NArith List String Arith Bool.
 From GV Require Import Ctx.Model Ctx.Proofs Flags.Gate Flags.Nesting Flags.Reach Flags.Generated Flags.Check.
 Import ListNotations.
 
@@ -94,19 +94,16 @@ Theorem C08_translator_resolved_everything : unresolved = [].
 Proof. exact resolved_ok. Qed.
 Print Assumptions C08_translator_resolved_everything.
 
-(* every function declared iosafe (known findings excepted) reaches no sink in
-   the call graph; with known_exceptions = [] this is the full statement *)
-Theorem C08_iosafe_functions_reach_no_sink_partial :
+(* every function declared iosafe reaches no sink in the call graph (no exceptions) *)
+Theorem C08_iosafe_functions_reach_no_sink :
   forall go lua root fl, In (go, lua, root, fl) registry ->
-  N.testbit fl 2 = true -> is_known root = false ->
+  N.testbit fl 2 = true ->
   forall s, In s sinks -> ~ path graph root s.
-Proof. exact iosafe_functions_reach_no_sink_partial. Qed.
-Print Assumptions C08_iosafe_functions_reach_no_sink_partial.
+Proof. exact iosafe_functions_reach_no_sink. Qed.
+Print Assumptions C08_iosafe_functions_reach_no_sink.
 
-(* each recorded exception is a function declared iosafe with a checked path to a sink *)
-Theorem C08_known_exceptions_refuted :
-  forall k, In k known_exceptions ->
-  (exists r, In r registry /\ row_root r = fst k /\ N.testbit (row_flags r) 2 = true) /\
-  exists s, In s sinks /\ path graph (fst k) s.
-Proof. exact known_exceptions_refuted. Qed.
-Print Assumptions C08_known_exceptions_refuted.
+(* ... and that is not vacuous on this run's table *)
+Theorem C08_table_nonvacuous :
+  (0 <? List.length checked_roots)%nat && (0 <? List.length sinks)%nat && (0 <? List.length graph)%nat = true.
+Proof. exact table_nonvacuous. Qed.
+Print Assumptions C08_table_nonvacuous.
